@@ -209,8 +209,46 @@ def machine(tier, sink):
   return HeapMachine
 
 
-# ---- (b) search runs (enabled once the shared search generator exists)
+# ---- (b) search runs: both searches return <= n_designs designs in non-increasing score order
+
+BUDGET_GIVEN = {'quick': 320, 'thorough': 8000}
+
+
+def strategy(tier):
+  from vmm.gen import search as G
+
+  @st.composite
+  def _s(draw):
+    base = draw(st.one_of(G.search_spec(max_geos=6, min_geos=3, constraint_p=0.25),
+                          G.search_spec(max_geos=6, min_geos=3, constraint_p=0.2, elig_style='none')))
+    base['params']['n_designs'] = draw(st.sampled_from([1, 2, 3, 5, 10, 50]))
+    return {'search': base}
+  return _s()
+
 
 def run_search(spec):
-  from vmm.ref import searchlib
-  return searchlib.run_c14_search(spec)
+  from vmm.props import c03
+  from vmm.ref import searchlib as L
+  case = L.materialise(spec['search'])
+  k = case.kwargs['n_designs']
+  viol = []
+  cls = ['search-case', 'n_designs=%d' % k]
+  nt = False
+  for method in ('exhaustive_search', 'greedy_search'):
+    tag = method.split('_')[0]
+    res = L.run_search(case, method)
+    if res[0] != 'ok':
+      cls.append('%s:%s' % (tag, res[0]))
+      continue
+    recs = res[1]
+    if len(recs) > k:
+      viol.append(('C14:%s:more-than-n_designs' % tag, {'n': len(recs), 'n_designs': k, 'case': L.describe(case)}))
+    for i in range(len(recs) - 1):
+      if c03.gt(recs[i + 1]['score'], recs[i]['score']):
+        viol.append(('C14:%s:not-best-first' % tag, {'pos': i, 'a': [float(t) for t in recs[i]['score']],
+                                                     'b': [float(t) for t in recs[i + 1]['score']], 'case': L.describe(case)}))
+        break
+    if len(recs) >= 2 or len(recs) == k:
+      nt = True
+    cls.append('%s:%s' % (tag, '0' if not recs else '1' if len(recs) == 1 else 'cap' if len(recs) == k else '2+'))
+  return {'viol': viol, 'nt': nt, 'cls': cls, 'dc': 0}
